@@ -26,22 +26,41 @@ def esc_path(p):
 def esc_val(v):
     return v.replace("$", "$$")
 
-def render_manifest(g, builddir=None):
-    """Plain spelling of the declared graph."""
-    lines = []
+def render_manifest(g, builddir=None, style=None):
+    """One spelling of the declared graph.  style (all optional, none changes the graph):
+      rule_prefix: name prefix of the generated rules
+      comments:    interleave comment lines
+      cmdvars:     bind each command to a file-level variable and reference it
+      include:     (a, b) — statements of steps a..b (1-based, contiguous) go to `inc.ninja`
+                   which is included in their place; returns (text, [(path, text)])
+      blank:       blank lines between statements
+    """
+    style = style or {}
+    rp = style.get("rule_prefix", "r")
+    main = []
+    inc = []
+    inc_range = style.get("include")
     if builddir:
-        lines.append("builddir = %s" % builddir)
+        main.append("builddir = %s" % builddir)
     for name, depth in g.get("pools", []):
         if name in ("", "console"):
             continue
-        lines.append("pool %s" % name)
-        lines.append("  depth = %d" % depth)
+        main.append("pool %s" % name)
+        main.append("  depth = %d" % depth)
+    placed_include = False
     for i, s in enumerate(g["steps"]):
+        lines = []
         rule = "phony"
+        if style.get("comments"):
+            lines.append("# step %d" % (i + 1))
         if not s["phony"]:
-            rule = "r%d" % (i + 1)
+            rule = "%s%d" % (rp, i + 1)
+            cmdref = esc_val(s["cmd"])
+            if style.get("cmdvars"):
+                lines.append("%s_cmd%d = %s" % (rp, i + 1, esc_val(s["cmd"])))
+                cmdref = "${%s_cmd%d}" % (rp, i + 1)
             lines.append("rule %s" % rule)
-            lines.append("  command = %s" % esc_val(s["cmd"]))
+            lines.append("  command = %s" % cmdref)
             if s["desc"]:
                 lines.append("  description = %s" % esc_val(s["desc"]))
             if s["depfile"]:
@@ -55,29 +74,49 @@ def render_manifest(g, builddir=None):
                 lines.append("  pool = %s" % s["pool"])
         outs = s["outs"][:s["nxo"]]; iouts = s["outs"][s["nxo"]:]
         ins = s["ins"][:s["nxi"]]; imp = s["ins"][s["nxi"]:]
-        b = "build " + " ".join(esc_path(p) for p in outs)
+        sp = s.get("spell", {})
+        def P(p):
+            return esc_path(sp.get(p, p))
+        b = "build " + " ".join(P(p) for p in outs)
         if iouts:
-            b += " | " + " ".join(esc_path(p) for p in iouts)
+            b += " | " + " ".join(P(p) for p in iouts)
         b += ": " + rule
         if ins:
-            b += " " + " ".join(esc_path(p) for p in ins)
+            b += " " + " ".join(P(p) for p in ins)
         if imp:
-            b += " | " + " ".join(esc_path(p) for p in imp)
+            b += " | " + " ".join(P(p) for p in imp)
         if s["oo"]:
-            b += " || " + " ".join(esc_path(p) for p in s["oo"])
+            b += " || " + " ".join(P(p) for p in s["oo"])
         if s["val"]:
-            b += " |@ " + " ".join(esc_path(p) for p in s["val"])
+            b += " |@ " + " ".join(P(p) for p in s["val"])
         lines.append(b)
+        if style.get("blank"):
+            lines.append("")
+        if inc_range and inc_range[0] <= i + 1 <= inc_range[1]:
+            if not placed_include:
+                main.append("include inc.ninja")
+                placed_include = True
+            inc += lines
+        else:
+            main += lines
     for d in g.get("defaults", []):
-        lines.append("default %s" % esc_path(d))
-    return "\n".join(lines) + "\n"
+        main.append("default %s" % esc_path(d))
+    text = "\n".join(main) + "\n"
+    if inc_range:
+        return text, [("inc.ninja", "\n".join(inc) + "\n")]
+    return text
 
 def graph(steps, pools=(), defaults=()):
     return {"steps": list(steps), "pools": [list(p) for p in pools], "defaults": list(defaults)}
 
-def manifest_op(g, name="build.ninja", text=None, extra=()):
-    return {"op": "manifest", "name": name, "text": text if text is not None else render_manifest(g),
-            "g": g, "extra": [list(e) for e in extra]}
+def manifest_op(g, name="build.ninja", text=None, extra=(), style=None, builddir=None):
+    if text is None:
+        r = render_manifest(g, builddir=builddir, style=style)
+        if isinstance(r, tuple):
+            text, extra = r[0], list(extra) + r[1]
+        else:
+            text = r
+    return {"op": "manifest", "name": name, "text": text, "g": g, "extra": [list(e) for e in extra]}
 
 def invoke(targets=(), j=2, k=0, adopt=False, file="build.ninja", outcomes=None, policy=None,
            crash=None, kill=None, extra_args=()):
